@@ -153,10 +153,18 @@ Definition event_of_code (c : N) : event := if N.even c then EStart (c / 2) else
 Definition events_wf_render (len : N) (codes : list N) : list N :=
   if events_wfb len (map event_of_code codes) then [119; 102] (* "wf" *) else [98; 97; 100] (* "bad" *).
 
-(* ---------- the typename rule of cddl.pest, with pest's implicit skip between the socket and the id ---------- *)
-(* typename = { socket_type? ~ id } in a non-atomic rule is  socket_type? skip id ; rule ids: 1 typename,
-   2 socket_type, 3 id.  id is simplified to one or more lower-case letters. *)
-Definition ws : pexp := PAlt (PRange 32 32) (PAlt (PRange 9 9) (PAlt (PRange 10 10) (PRange 13 13))).
+(* ---------- the typename rule of cddl.pest ---------- *)
+(* typename = ${ socket_type? ~ id } is compound-atomic (commit 837f856): no implicit skip between the socket and
+   the id.  Rule ids: 1 typename, 2 socket_type, 3 id.  The body of id is any expression without inner pairs
+   (id is atomic, `@`); lower_id is a concrete one. *)
+Fixpoint no_rule (e : pexp) : bool :=
+  match e with
+  | PEmpty | PAny | PRange _ _ => true
+  | PSeq a b | PAlt a b => no_rule a && no_rule b
+  | PStar a | PNot a => no_rule a
+  | PRule _ _ | PCall _ => false
+  end.
+Definition typename_of (idbody : pexp) : pexp :=
+  PRule 1 (PSeq (PAlt (PRule 2 (PRange 36 36)) PEmpty) (PRule 3 idbody)).
 Definition lower : pexp := PRange 97 122.
-Definition typename_rule : pexp :=
-  PRule 1 (PSeq (PAlt (PRule 2 (PRange 36 36)) PEmpty) (PSeq (PStar ws) (PRule 3 (PSeq lower (PStar lower))))).
+Definition lower_id : pexp := PSeq lower (PStar lower).
